@@ -68,6 +68,12 @@ def main():
                 text += " Thorough tier: short histories of the driver under the Miri interpreter."
             if pid in ("C09", "C01"):
                 text += " Also: direct and entity handles probed after 1 .. 2^24+256 really performed removals / recyclings (capacity engine)."
+            if pid in ("C01", "C08", "C09", "C12"):
+                text += (" Also: TLC checks that the slot-map model IMPLEMENTS the representation-free entity map AbsMap.tla (refinement PROPERTY, live set "
+                         "read out of the dense handle column): every free-list pop, growth, swap-remove and generation bump is one abstract create / destroy / mint or a stutter.")
+            if pid in ("C13", "C17"):
+                text += (" Also: WorldMC with Events = TRUE carries each world's created / destroyed logs (create, destroy, clone, clone_from, clear_events at both levels, drop; "
+                         "invariant EventsOk); every transition of that model is replayed in the events build, the real logs are compared with the model's after every step and every step is judged by the contract.")
             if pid == "C11":
                 text += " Clone is enumerated as inner leaf and as OUTER access (the body runs from inside a component's Clone::clone while clone holds the archetype's columns)."
             if pid == "C14":
